@@ -50,9 +50,9 @@ class SIRModel(object):
         kw = dict(initial_infecteds=list(self.I0), tmin=self.tmin, tmax=self.tmax, return_full_data=full)
         if self.R0:
             kw['initial_recovereds'] = list(self.R0)
-        if self.ewl:
+        if self.ewl is not None:
             kw['transmission_weight'] = self.ewl
-        if self.nwl:
+        if self.nwl is not None:
             kw['recovery_weight'] = self.nwl
         return kw
 
@@ -123,9 +123,9 @@ def prop_tree(case, model_cls=SIRModel, name='Gillespie_SIR', walk=None, max_dep
         flags['deep'] = max(flags['deep'], len(hist))
     fails, stats = steplaw.explore(model, name, walk=walk, max_depth=max_depth, max_levels=max_levels, observe=observe)
     classes = []
-    if case.get('ew'):
+    if case.get('ew') is not None:
         classes.append('edge-weighted')
-    if case.get('nw'):
+    if case.get('nw') is not None:
         classes.append('node-weighted')
     if case.get('R0'):
         classes.append('with-R0')
@@ -133,7 +133,7 @@ def prop_tree(case, model_cls=SIRModel, name='Gillespie_SIR', walk=None, max_dep
         classes.append('zero-rate')
     if case.get('tmax', INF) not in (INF, 'inf'):
         classes.append('finite-tmax')
-    if case['gc'].get('zero_weights') and case.get('ew'):
+    if case['gc'].get('zero_weights') and case.get('ew') is not None:
         classes.append('zero-weight-edges')
     if case['gc'].get('selfloops'):
         classes.append('self-loops')
